@@ -70,6 +70,13 @@ impl<R: Read + Seek> ArchiveFile<R> {
 
     /// Read content at specific offset and size
     pub fn read_at_offset(&mut self, offset: u64, size: u64) -> ArchiveResult<Vec<u8>> {
+        // The size comes from an index entry: it has to describe bytes the
+        // archive holds before it sizes the buffer
+        let end = self.reader.seek(SeekFrom::End(0))?;
+        if offset.checked_add(size).is_none_or(|read_end| read_end > end) {
+            return Err(std::io::Error::from(std::io::ErrorKind::UnexpectedEof).into());
+        }
+
         // Seek to offset
         self.reader.seek(SeekFrom::Start(offset))?;
         self.position = offset;
